@@ -2270,10 +2270,12 @@ class EvalFault(Exception):
 
 
 class Machine(skel.Skel):
-    """engine/skel.py plus: a flat memory of cells for arrays (one cell per element, unallocated cells read as `unknown`, writes to them are
-    not modelled), a frame per call (recursion, reference parameters bound to locals of a suspended frame), constructors of other objects
-    (their fields shadow the ones of *this while they run), integer conversions and unsigned wrap-around by the type of the expression,
-    std::fill / fill_n, count-leading/trailing-zeros.  Everything else a call could be is `cannot decide`."""
+    """engine/skel.py plus: a flat memory of cells for arrays (one cell per element; a read just past the end of an array is a finding,
+    EvalFault, any other access outside the arrays is not modelled), a frame per call (recursion, reference parameters bound to locals of a
+    suspended frame), constructors of other objects (their fields shadow the ones of *this while they run), integer conversions and
+    unsigned wrap-around by the type of the expression, std::fill / fill_n / next / prev / distance / advance / lower_bound / upper_bound on
+    pointers into the arrays, count-leading/trailing-zeros (of 0: EvalFault), abort() (EvalFault).  Every other call that has no body in the
+    translation unit is `cannot decide`."""
 
     def __init__(self, tu, fn):
         skel.Skel.__init__(self, fn, env={}, unknown=self._unknown, event=self._event, tu=tu, max_iter=70000)
@@ -2397,7 +2399,7 @@ class Machine(skel.Skel):
             if len(args) != 1:
                 return NotImplemented
             cal = self.tu.by_did.get(e["callee"].get("did")) if self.tu is not None else None
-            pty = cal.params[0].get("ty") if cal is not None and cal.params else strip_casts(args[0]).get("ty")
+            pty = (cal.params[0].get("ty") or "").rstrip("& ") if cal is not None and cal.params else strip_casts(args[0]).get("ty")
             if nm.endswith("ll") or (nm.endswith("l") and nm.startswith("__builtin")):
                 pty = "unsigned long"
             elif nm.startswith("__builtin"):
@@ -3024,8 +3026,8 @@ def check_front_level_fn(ck, tu, fns, fn, C, F, vectors, cursors, writes, incs):
             if el is not None:
                 out.append((y, at if at is not None else g.pos_deep(y)))
                 continue
-            if y["k"] == "DeclRefExpr" and y["ref"].get("kind") == "local" and y["ref"]["id"] not in seen:
-                did = y["ref"]["id"]
+            if y["k"] == "DeclRefExpr" and y["ref"]["id"] in _locals(fn) and y["ref"]["id"] not in seen:
+                did = y["ref"]["id"]            # (a local: also one that the normaliser made of a parameter of an inlined helper)
                 seen.add(did)
                 v = _locals(fn).get(did)
                 if v is not None and kids(v) and kids(v)[0] is not None:
